@@ -9,7 +9,7 @@ import subprocess
 import sys
 import time
 import traceback
-from typing import Any, Callable, Dict, Iterable, List, Optional
+from typing import Any, Callable, Dict, Iterable, List, Optional, Tuple
 
 from . import tlc as _tlc
 
@@ -258,6 +258,31 @@ def pmap(func: Callable, items: Iterable[Any], nproc: int = 14, envs: Optional[D
   if failure:
     raise RuntimeError(failure)
   return results
+
+
+def pmap_chunks(func: Callable, chunks: List[Any], split: Callable[[Any], List[Any]], nproc: int = 14) -> Tuple[List[Any], List[Tuple[Any, "Crash"]]]:
+  """pmap over chunks of scenarios where the implementation under test may kill the process: a chunk whose worker dies is re-run one
+  scenario per item (split(chunk) -> single-scenario chunks).  Returns (results of all chunks/singles that completed, [(single, Crash)])."""
+  res = pmap(func, chunks, nproc=nproc, crash_ok=True)
+  done = [r for r in res if not isinstance(r, Crash)]
+  singles = [s for c, r in zip(chunks, res) if isinstance(r, Crash) for s in split(c)]
+  crashes = []
+  if singles:
+    res2 = pmap(func, singles, nproc=nproc, crash_ok=True)
+    for s, r in zip(singles, res2):
+      if isinstance(r, Crash):
+        crashes.append((s, r))
+      else:
+        done.append(r)
+  return done, crashes
+
+
+def crash_site(c: "Crash") -> str:
+  """innermost frame of the implementation in a faulthandler dump / traceback of a dead worker"""
+  import re
+
+  m = re.findall(r'File "[^"]*/mujoco_warp/_src/([a-z_0-9]+\.py)", line \d+ in (\w+)', c.stderr_tail)
+  return f"{m[0][0]}:{m[0][1]}" if m else "unknown"
 
 
 def run_isolated(code: str, timeout: int = 600, envs: Optional[Dict[str, str]] = None) -> subprocess.CompletedProcess:
